@@ -69,8 +69,8 @@ func checkC04(p *load.Program, r *kit.Report) {
 		return
 	}
 	pos := posOf(p, f.Blocks[0].Instrs[0])
-	txCount := paramNamed(f, "txCount")
-	headerP := paramNamed(f, "header")
+	txCount := prmOfType(f, "uint64", 0)
+	headerP := prmOfType(f, "wire.BlockHeader", 0)
 	finals := kit.CallsTo(f, load.MerklePkg+".MerkleTree.FinalizeMerkleProofs")
 	if len(finals) != 1 {
 		// may have moved into a wrapper: search the package for the call
@@ -348,7 +348,7 @@ func checkC04(p *load.Program, r *kit.Report) {
 				}
 				if kit.DependsOn(a, func(v ssa.Value) bool {
 					cc, ok := v.(*ssa.Call)
-					return ok && kit.CallID(cc) == load.WirePkg+".BlockHeader.BlockHash" && kit.Strip(cc.Call.Args[0]) == ssa.Value(paramNamed(hb, "header"))
+					return ok && kit.CallID(cc) == load.WirePkg+".BlockHeader.BlockHash" && kit.Strip(cc.Call.Args[0]) == ssa.Value(prmOfType(hb, "wire.BlockHeader", 0))
 				}) {
 					got = true
 				}
@@ -360,7 +360,7 @@ func checkC04(p *load.Program, r *kit.Report) {
 			bad = "HandleBlock does not delegate to handleBlock exactly once"
 		} else if ok, path := kit.DominatedByEdges(hb, calls[0], edgesOf(eq, true), nil, p.Pos); !ok || len(eq) == 0 {
 			bad = "a block whose header does not hash to the requested hash is processed: " + path
-		} else if kit.Strip(calls[0].Common().Args[2]) != ssa.Value(paramNamed(hb, "header")) {
+		} else if kit.Strip(calls[0].Common().Args[2]) != ssa.Value(prmOfType(hb, "wire.BlockHeader", 0)) {
 			bad = "the header processed is not the one whose hash was compared"
 		}
 		r.Check(bad == "", "GUARD-DOM", "HandleBlock/requested-hash", posOf(p, hb.Blocks[0].Instrs[0]), "handleBlock only behind requestedHash.Equal(&hash of header)", bad)
